@@ -31,6 +31,7 @@ func freeMulti(m *multi) {
 	m.calls = m.calls[:0]
 	// set m.regions to nil because the slice is not reused.
 	m.regions = nil
+	m.callRegions = nil
 	m.size = 0
 	multiPool.Put(m)
 }
@@ -40,6 +41,10 @@ type multi struct {
 	calls []hrpc.Call
 	// regions preserves the order of regions to match against RegionActionResults
 	regions []hrpc.RegionInfo
+	// callRegions is the region each call had when the request was
+	// serialized. A call's Region() must not be read once any result has
+	// been delivered: its owner may already be retrying it (SetRegion).
+	callRegions []hrpc.RegionInfo
 }
 
 func newMulti(queueSize int) *multi {
@@ -76,6 +81,7 @@ func (m *multi) toProto(isCellblocks bool, cbs [][]byte) (proto.Message, [][]byt
 
 	pbActions := make([]pb.Action, len(m.calls))
 	indices := make([]uint32, len(m.calls))
+	m.callRegions = make([]hrpc.RegionInfo, len(m.calls))
 	for i, c := range m.calls {
 		if c.Context().Err() != nil {
 			// context has expired, don't bother sending it
@@ -83,10 +89,11 @@ func (m *multi) toProto(isCellblocks bool, cbs [][]byte) (proto.Message, [][]byt
 			continue
 		}
 
-		as, ok := actionsPerReg[c.Region()]
+		m.callRegions[i] = c.Region()
+		as, ok := actionsPerReg[m.callRegions[i]]
 		if !ok {
 			as = &actions{}
-			actionsPerReg[c.Region()] = as
+			actionsPerReg[m.callRegions[i]] = as
 		}
 
 		var msg proto.Message
@@ -246,11 +253,17 @@ func (m *multi) returnResults(msg proto.Message, err error) (serverErr error) {
 			reg := m.regions[i]
 
 			err := noteServerError(exceptionToError(*e.Name, string(e.Value)))
-			for _, c := range m.calls {
+			for j, c := range m.calls {
 				if c == nil {
 					continue
 				}
-				if c.Region() == reg {
+				callReg := hrpc.RegionInfo(nil)
+				if m.callRegions != nil {
+					callReg = m.callRegions[j]
+				} else {
+					callReg = c.Region()
+				}
+				if callReg == reg {
 					c.ResultChan() <- hrpc.RPCResult{Error: err}
 				}
 			}
